@@ -753,6 +753,13 @@ func normalForm(st *fstate, t *Term) *Term {
 		}
 		return nil
 	}
+	// new(T) followed by field stores is the literal &T{...} with those fields
+	newLit := func(t *Term) *Term {
+		if t.K == "call" && t.S == "new" && len(t.A) == 1 && (t.A[0].K == "type" || t.A[0].K == "const" || t.A[0].K == "var") {
+			return mk("op", "&", mk("lit", t.A[0].S))
+		}
+		return nil
+	}
 	changed := false
 	var rec func(t *Term, depth int, top bool) *Term
 	rec = func(t *Term, depth int, top bool) *Term {
@@ -789,6 +796,9 @@ func normalForm(st *fstate, t *Term) *Term {
 		changed = true
 		v := rec(as[0], depth+1, false)
 		if t.K == "var" {
+			if nl := newLit(v); nl != nil && len(fields[t.Key()]) > 0 {
+				v = nl
+			}
 			if l := litOf(v); l != nil && len(fields[t.Key()]) > 0 {
 				nl := &Term{K: l.K, S: l.S, Obj: l.Obj}
 				over := map[string]*Term{}
